@@ -19,6 +19,36 @@ out.append("Each directory under `/verif/seeded/` holds `patch.diff`, `demo.py` 
            "`CAUGHT` = `VERIF_REPO=<worktree with the patch> ./check <id>` printed a VIOLATION with a concrete replay; "
            "`CAUGHT-NO-INPUT` = a proof obligation / translator / correspondence broke but no concrete input was found (`no-failing-input-found`); "
            "`MISSED` = exit 0 (the check was then strengthened; the `after` column gives the result of the re-run).\n")
+def _round(name):
+    tag = name.split("-", 1)[1]
+    if tag.startswith("r3"): return 3
+    if tag.startswith("r4"): return 4
+    t = re.sub(r"\d+$", "", tag)
+    return 1 if (len(t) == 1 and t <= "o") else 2
+_rounds = {}
+for d in sorted(glob.glob(V + "/seeded/*/")):
+    try:
+        m = json.load(open(d + "meta.json"))
+    except Exception:
+        continue
+    r = _rounds.setdefault(_round(os.path.basename(d.rstrip("/"))), {"n": 0, "CAUGHT": 0, "CAUGHT-NO-INPUT": 0, "MISSED": 0, "after": 0, "open": []})
+    first = (m.get("check_result", "") or "").split(":")[0]
+    after = (m.get("check_result_after", "") or "").split(":")[0]
+    r["n"] += 1
+    r[first] = r.get(first, 0) + 1
+    if (after or first) == "CAUGHT":
+        r["after"] += 1
+    else:
+        r["open"].append(os.path.basename(d.rstrip("/")))
+out.append("Four rounds were run; each round's authors were shown the summaries of the changes already taken and asked for different ones. "
+           "Round 1: any small plausible edit. Round 2: another function / mechanism than round 1. Round 3: cooperating sites, interleavings and faults, "
+           "glue (defaults, coercions, alternative entry points), second call on the same object. Round 4: rarely exercised variants and boundary values, "
+           "partial reverts of the `fix:` commits, state leaks between two uses, error paths.\n")
+out.append("| Round | Changes kept | First run: caught with replay | caught, no input | missed | Caught with a concrete replay after strengthening | Not yet |\n|---|---|---|---|---|---|---|")
+for k in sorted(_rounds):
+    r = _rounds[k]
+    out.append("| %d | %d | %d | %d | %d | %d | %s |" % (k, r["n"], r["CAUGHT"], r["CAUGHT-NO-INPUT"], r["MISSED"], r["after"], ", ".join(r["open"]) or "—"))
+out.append("")
 out.append("| Seed | Property | Change | First run | After strengthening | Violation keys |\n|---|---|---|---|---|---|")
 for d in sorted(glob.glob(V + "/seeded/*/")):
     try:
